@@ -9,6 +9,7 @@ Sequential part (section Seq): nested composites of finite parts of any depth re
 of their parts; `Left` is exact.
 -/
 import Pandora.Proofs.C02Conc
+import Pandora.Proofs.C02Seq
 
 namespace Pandora.Props.C02
 open Pandora.Model.C02 Pandora.Model.C02.Conc Pandora.Proofs.C02Conc
@@ -98,5 +99,115 @@ example : (∀ r ∈ [Leaf.fin [] 0 0 none, Leaf.fin [0, 0] 0 0 none], Unstarted
   intro r hr; simp at hr; rcases hr with rfl | rfl <;> trivial
 example : okToks (run 5 (initSt [0] 0 0 [Leaf.fin [] 0 0 none, Leaf.fin [0, 0] 0 0 none] [2, 2, 0]
     [[.next, .next], [.next, .next]]) [0, 1, 0, 1, 1, 0, 0, 1]).log = [0, 0, 0] := by decide
+
+/-! ## Sequential part: nesting to any depth -/
+
+section Seq
+open Pandora.Proofs.C02Seq
+
+mutual
+/-- every schedule object that can be built from finite leaf profiles (once/const/line: a list of offsets and a
+duration) by `NewComposite`, nested to any depth, with 0, 1 or more children, together with what it denotes:
+started at `t` it hands out `den.1 t` and finishes at `den.2 t`. -/
+inductive Built (now : Int) : (d : Nat) → Lvl d → Den → Prop
+  | leaf (offs : List Int) (dur : Int) :
+      Built now 0 (Leaf.fin offs dur 0 none) (fun t => offs.map (t + ·), fun t => t + dur)
+  | lift {d : Nat} {x : Lvl d} {den : Den} : Built now d x den → Built now (d + 1) (.inl x) den
+  | comp {d : Nat} {cs : List (Lvl d)} {dens : List Den} {s : Lvl (d + 1)} :
+      BuiltList now d cs dens → newComposite (lvlOps d) now cs = .ok s →
+      Built now (d + 1) s (chainTk dens, chainFn dens)
+inductive BuiltList (now : Int) : (d : Nat) → List (Lvl d) → List Den → Prop
+  | nil {d : Nat} : BuiltList now d [] []
+  | cons {d : Nat} {c : Lvl d} {den : Den} {cs : List (Lvl d)} {dens : List Den} :
+      Built now d c den → BuiltList now d cs dens → BuiltList now d (c :: cs) (den :: dens)
+end
+
+mutual
+theorem built_U {now : Int} : ∀ {d : Nat} {s : Lvl d} {den : Den}, Built now d s den → (lvlSem d).U s den.1 den.2
+  | _, _, _, .leaf offs dur => ⟨rfl, rfl⟩
+  | _, _, _, .lift (d := d) (x := x) (den := den) h => by
+      show (lvlSem d).U x den.1 den.2
+      exact built_U h
+  | _, _, _, .comp (d := d) (cs := cs) (dens := dens) hl hnew => by
+      obtain ⟨s', hs', hU⟩ := newComposite_sem (lvlSem d) now cs dens (builtList_allU hl)
+      rw [hnew] at hs'
+      cases hs'
+      exact hU
+theorem builtList_allU {now : Int} : ∀ {d : Nat} {cs : List (Lvl d)} {dens : List Den},
+    BuiltList now d cs dens → AllU (lvlSem d) cs dens
+  | _, _, _, .nil => trivial
+  | _, _, _, .cons h hl => ⟨built_U h, builtList_allU hl⟩
+end
+
+/-- successive `Next()` calls, one clock reading each -/
+def nexts {σ : Type} (ops : Ops σ) : σ → List Int → Except String (σ × List (Int × Bool))
+  | s, [] => .ok (s, [])
+  | s, now :: nows =>
+    match ops.next s now with
+    | .error e => .error e
+    | .ok (s', tx, ok) =>
+      match nexts ops s' nows with
+      | .error e => .error e
+      | .ok (s'', rs) => .ok (s'', (tx, ok) :: rs)
+
+/-- what `n` successive calls must return: the tokens in order, each once, then the finish time for ever -/
+def expected (toks : List Int) (f : Int) : Nat → List (Int × Bool)
+  | 0 => []
+  | n + 1 => match toks with
+    | t :: ts => (t, true) :: expected ts f n
+    | [] => (f, false) :: expected [] f n
+
+theorem nexts_running {σ : Type} {ops : Ops σ} (fs : FinSem ops) : ∀ (nows : List Int) (s : σ) (toks : List Int) (f : Int),
+    fs.R s toks f → ∃ s', nexts ops s nows = .ok (s', expected toks f nows.length) ∧ fs.R s' (toks.drop nows.length) f
+  | [], s, toks, f, h => ⟨s, rfl, by simpa using h⟩
+  | now :: nows, s, [], f, h => by
+      obtain ⟨s1, hn, h1⟩ := fs.next_nil h now
+      obtain ⟨s2, hr, h2⟩ := nexts_running fs nows s1 [] f h1
+      exact ⟨s2, by simp [nexts, hn, hr, expected], by simpa using h2⟩
+  | now :: nows, s, t :: ts, f, h => by
+      obtain ⟨s1, hn, h1⟩ := fs.next_cons h now
+      obtain ⟨s2, hr, h2⟩ := nexts_running fs nows s1 ts f h1
+      exact ⟨s2, by simp [nexts, hn, hr, expected], by simpa using h2⟩
+
+/-- **Token contract of every finite schedule tree, any nesting depth** (sequential caller, any clock readings):
+after `Start(t0)` the successive `Next()` results are exactly the tokens of the flat succession of the parts —
+each part starting at the finish time of the part before it (`chainTk`) — in order, each once, and after
+exhaustion the same finish time for ever; and at that point `Left()` is exactly the number of tokens not yet
+handed out (hence ≥ 0, zero iff none remains, one less per token drawn) and does not disturb the schedule. -/
+theorem C02_seq_contract (now0 : Int) (d : Nat) (s : Lvl d) (den : Den) (hb : Built now0 d s den)
+    (t0 : Int) (nows : List Int) (nowL : Int) :
+    ∃ s1 s2, (lvlOps d).start s t0 = .ok s1 ∧
+      nexts (lvlOps d) s1 nows = .ok (s2, expected (den.1 t0) (den.2 t0) nows.length) ∧
+      (lvlOps d).left s2 nowL = .ok (s2, (((den.1 t0).drop nows.length).length : Int)) := by
+  obtain ⟨s1, hs, hR⟩ := (lvlSem d).start_U (built_U hb) t0
+  obtain ⟨s2, hn, hR2⟩ := nexts_running (lvlSem d) nows s1 _ _ hR
+  exact ⟨s1, s2, hs, hn, (lvlSem d).left_R hR2 nowL⟩
+
+/-- an unstarted tree started implicitly by its first `Next()` behaves as if started at that clock reading -/
+theorem C02_seq_autostart (now0 : Int) (d : Nat) (s : Lvl d) (den : Den) (hb : Built now0 d s den) (now : Int) :
+    ∃ s1, (lvlOps d).start s now = .ok s1 ∧ (lvlOps d).next s now = (lvlOps d).next s1 now :=
+  (lvlSem d).next_U (built_U hb) now
+
+/-- before it is started, `Left()` of a finite tree is its total number of tokens, whatever the start time -/
+theorem C02_seq_left_unstarted (now0 : Int) (d : Nat) (s : Lvl d) (den : Den) (hb : Built now0 d s den) (now t : Int) :
+    (lvlOps d).left s now = .ok (s, ((den.1 t).length : Int)) := by
+  rw [(lvlSem d).len_U (built_U hb) t]
+  exact (lvlSem d).left_U (built_U hb) now
+
+/-- the meaning of a composite: its parts in order, part j+1 starting exactly at the finish time of part j -/
+theorem C02_seq_chain (d : Den) (ds : List Den) (t : Int) :
+    chainTk (d :: ds) t = d.1 t ++ chainTk ds (d.2 t) ∧ chainFn (d :: ds) t = chainFn ds (d.2 t) := ⟨rfl, rfl⟩
+
+-- non-vacuity: composite[once(1), composite[once(0), once(2)], composite[]] is `Built`, depth 2
+example : ∃ s den, Built 0 2 s den ∧ den.1 7 = [7, 7, 7] := by
+  have l1 : Built 0 0 (Leaf.fin [0] 0 0 none) _ := .leaf [0] 0
+  have l0 : Built 0 0 (Leaf.fin [] 0 0 none) _ := .leaf [] 0
+  have l2 : Built 0 0 (Leaf.fin [0, 0] 0 0 none) _ := .leaf [0, 0] 0
+  have c1 : Built 0 1 _ _ := .comp (.cons l0 (.cons l2 .nil)) rfl
+  have c0 : Built 0 1 _ _ := .comp (d := 0) .nil rfl
+  have top : Built 0 2 _ _ := .comp (.cons (.lift l1) (.cons c1 (.cons c0 .nil))) rfl
+  exact ⟨_, _, top, by simp [chainTk]⟩
+
+end Seq
 
 end Pandora.Props.C02
